@@ -326,6 +326,11 @@ func (en *DefaultEngine) runFirst(ctx context.Context) (bool, error) {
 	if en.first == nil {
 		return true, nil
 	}
+	if en.st.MatchFlag(state.FLAG_TERMINATE, true) {
+		// a blocked session runs nothing, the pre-VM check included; the regular
+		// execution path reports the block (and must find the flag as it is).
+		return true, nil
+	}
 	logg.DebugCtxf(ctx, "start pre-VM check")
 	en.ca.Push()
 	rs := resource.NewMenuResource()
